@@ -341,4 +341,123 @@ theorem defined_cone_project (s : Cone K) (p : V3 K) (solid : Bool) :
     | (exfalso; linarith [eps_pos sq])
     | (exfalso; simp only [optsimp, defined_seg3_project] at *; tauto)
 
+/-! ## Triangle -/
+
+def liftTri2 (s : Triangle2 K) : Triangle2 (Opt K sq) := ⟨lift2 s.a, lift2 s.b, lift2 s.c⟩
+def liftTri3 (s : Triangle3 K) : Triangle3 (Opt K sq) := ⟨lift3 s.a, lift3 s.b, lift3 s.c⟩
+
+def liftPL3 (r : PP3 K × TriLoc K) : PP3 (Opt K sq) × TriLoc (Opt K sq) := (liftPP3 sq r.1, liftTriLoc sq r.2)
+def liftPL2 (r : PP2 K × TriLoc K) : PP2 (Opt K sq) × TriLoc (Opt K sq) := (liftPP2 sq r.1, liftTriLoc sq r.2)
+/-- **C20 (Triangle::project_local_point_and_get_location, 2-D)**: defined for every triangle whose three vertices are
+pairwise distinct — **flat (collinear) triangles included** — every point (on vertices, edges, inside) and both flags.
+In the three edge branches the divisor `|e|²` is non-zero because the branch test `n · perp(e, ·) < 0` fails for a
+zero edge; in the interior `solid = false` branch the three divisors are exactly `|ab|²`, `|ac|²`, `|bc|²`, which is
+where the hypothesis is used (see `tri2_coincident_vertices_nan_intermediate` for what happens otherwise). -/
+theorem defined_tri2_projectLoc (s : Triangle2 K) (p : V2 K) (solid : Bool)
+    (hab : letI := fieldNum K sq; (s.b.sub s.a).normSq ≠ 0)
+    (hac : letI := fieldNum K sq; (s.c.sub s.a).normSq ≠ 0)
+    (hbc : letI := fieldNum K sq; (s.c.sub s.b).normSq ≠ 0) :
+    letI := fieldNum K sq
+    (liftTri2 sq s).projectLoc (lift2 p) solid
+      = liftPL2 sq (s.projectLoc p solid) := by
+  letI := fieldNum K sq
+  have e1 : (s.b.sub s.a).dot (p.sub s.a) - (s.b.sub s.a).dot (p.sub s.b) = (s.b.sub s.a).normSq := by
+    simp only [V2.dot, V2.sub, V2.normSq]; ring
+  have e2 : (s.c.sub s.a).dot (p.sub s.a) - (s.c.sub s.a).dot (p.sub s.c) = (s.c.sub s.a).normSq := by
+    simp only [V2.dot, V2.sub, V2.normSq]; ring
+  have e3 : (s.c.sub s.a).dot (p.sub s.b) - (s.b.sub s.a).dot (p.sub s.b) + (s.b.sub s.a).dot (p.sub s.c)
+      - (s.c.sub s.a).dot (p.sub s.c) = (s.c.sub s.b).normSq := by
+    simp only [V2.dot, V2.sub, V2.normSq]; ring
+  simp only [Triangle2.projectLoc, liftTri2, optsimp, apply_ite (liftPL2 sq)]
+  generalize (s.b.sub s.a).dot (p.sub s.a) = ab_ap at *
+  generalize (s.b.sub s.a).dot (p.sub s.b) = ab_bp at *
+  generalize (s.b.sub s.a).dot (p.sub s.c) = ab_cp at *
+  generalize (s.c.sub s.a).dot (p.sub s.a) = ac_ap at *
+  generalize (s.c.sub s.a).dot (p.sub s.b) = ac_bp at *
+  generalize (s.c.sub s.a).dot (p.sub s.c) = ac_cp at *
+  generalize (s.b.sub s.a).normSq = nab at *
+  generalize (s.c.sub s.a).normSq = nac at *
+  generalize (s.c.sub s.b).normSq = nbc at *
+  generalize (s.b.sub s.a).perp (s.c.sub s.a) = n at *
+  generalize (s.b.sub s.a).perp (p.sub s.a) = pab at *
+  generalize (s.c.sub s.a).perp (p.sub s.c) = pac at *
+  generalize (s.c.sub s.b).perp (p.sub s.b) = pbc at *
+  generalize (s.c.sub s.b).dot (p.sub s.b) = bc_bp at *
+  generalize (p.sub s.a).normSq = nap at *
+  generalize (p.sub s.b).normSq = nbp at *
+  generalize s.b.sub s.a = ab at *
+  generalize s.c.sub s.a = ac at *
+  generalize s.c.sub s.b = bc at *
+  have d1 : ab_ap - ab_bp ≠ 0 := e1 ▸ hab
+  have d2 : ac_ap - ac_cp ≠ 0 := e2 ▸ hac
+  have d3 : ac_bp - ab_bp + ab_cp - ac_cp ≠ 0 := e3 ▸ hbc
+  simp only [if_neg d1, if_neg d2, if_neg d3, if_neg hab, if_neg hac, if_neg hbc, optsimp]
+  opt_tree
+
+/-- **C20 (Triangle::project_local_point_and_get_location, 3-D)**: defined for every triangle whose three vertices are
+pairwise distinct — **flat (collinear) triangles included** — every point and both flags.  The face branch divides by
+`va + vb + vc = |n|²` only after testing it non-zero; for a flat triangle the code falls through to the same
+edge-distance comparison as in 2-D, whose divisors are `|ab|²`, `|ac|²`, `|bc|²`. -/
+theorem defined_tri3_projectLoc (s : Triangle3 K) (p : V3 K) (solid : Bool)
+    (hab : letI := fieldNum K sq; (s.b.sub s.a).normSq ≠ 0)
+    (hac : letI := fieldNum K sq; (s.c.sub s.a).normSq ≠ 0)
+    (hbc : letI := fieldNum K sq; (s.c.sub s.b).normSq ≠ 0) :
+    letI := fieldNum K sq
+    (liftTri3 sq s).projectLoc (lift3 p) solid = liftPL3 sq (s.projectLoc p solid) := by
+  letI := fieldNum K sq
+  have e1 : (s.b.sub s.a).dot (p.sub s.a) - (s.b.sub s.a).dot (p.sub s.b) = (s.b.sub s.a).normSq := by
+    simp only [V3.dot, V3.sub, V3.normSq]; ring
+  have e2 : (s.c.sub s.a).dot (p.sub s.a) - (s.c.sub s.a).dot (p.sub s.c) = (s.c.sub s.a).normSq := by
+    simp only [V3.dot, V3.sub, V3.normSq]; ring
+  have e3 : (s.c.sub s.a).dot (p.sub s.b) - (s.b.sub s.a).dot (p.sub s.b) + (s.b.sub s.a).dot (p.sub s.c)
+      - (s.c.sub s.a).dot (p.sub s.c) = (s.c.sub s.b).normSq := by
+    simp only [V3.dot, V3.sub, V3.normSq]; ring
+  simp only [Triangle3.projectLoc, liftTri3, optsimp, apply_ite (liftPL3 sq)]
+  generalize (s.b.sub s.a).dot (p.sub s.a) = ab_ap at *
+  generalize (s.b.sub s.a).dot (p.sub s.b) = ab_bp at *
+  generalize (s.b.sub s.a).dot (p.sub s.c) = ab_cp at *
+  generalize (s.c.sub s.a).dot (p.sub s.a) = ac_ap at *
+  generalize (s.c.sub s.a).dot (p.sub s.b) = ac_bp at *
+  generalize (s.c.sub s.a).dot (p.sub s.c) = ac_cp at *
+  generalize (s.b.sub s.a).normSq = nab at *
+  generalize (s.c.sub s.a).normSq = nac at *
+  generalize (s.c.sub s.b).normSq = nbc at *
+  have d1 : ab_ap - ab_bp ≠ 0 := e1 ▸ hab
+  have d2 : ac_ap - ac_cp ≠ 0 := e2 ▸ hac
+  have d3 : ac_bp - ab_bp + ab_cp - ac_cp ≠ 0 := e3 ▸ hbc
+  simp only [if_neg d1, if_neg d2, if_neg d3, if_neg hab, if_neg hac, if_neg hbc, optsimp]
+  opt_tree
+  all_goals (simp only [if_neg (by assumption : ¬ _ = (0 : K)), optsimp]; try rfl)
+
+/-! ### Finding: two coincident vertices `b = c` give a NaN projection (pinned tree and current /repo)
+
+`Triangle::project_local_point(_, solid = false)` on the degenerate ("flat") triangle `a = (0,0)`, `b = c = (2,0)` and
+the point `(1,1)`: no vertex or edge region matches (all three `perp` tests are `0 < 0`), the code falls through to
+"project on the closest edge", computes `u = 0/0` for the zero-length edge `bc`, both comparisons with the NaN
+distance are false and the final `else` selects `bc`: the result is `b + bc * NaN`.
+Replayed on the real crates (`C05 tri2_loc … 0 | 1 nan nan E 1 nan nan`, `tri3_loc` likewise); patch in
+`fixes/C20-triangle-coincident-vertices-nan.diff`.  With `a = b` or `a = c` the NaN edge is never selected. -/
+
+/-- the witness, at `NaNable` itself: the returned point and the edge coordinates are NaN -/
+theorem tri2_coincident_bc_nan :
+    let t : Triangle2 NaNable := ⟨⟨some 0, some 0⟩, ⟨some 2, some 0⟩, ⟨some 2, some 0⟩⟩
+    let r := t.projectLoc ⟨some 1, some 1⟩ false
+    Option.isSome (r.1.pt.x : Option Rat) = false ∧ Option.isSome (r.1.pt.y : Option Rat) = false := by
+  decide +kernel
+/-- same in 3-D (`a = 0`, `b = c = 2 e_x`, `p = (1,1,0)`) -/
+theorem tri3_coincident_bc_nan :
+    let t : Triangle3 NaNable := ⟨⟨some 0, some 0, some 0⟩, ⟨some 2, some 0, some 0⟩, ⟨some 2, some 0, some 0⟩⟩
+    let r := t.projectLoc ⟨some 1, some 1, some 0⟩ false
+    Option.isSome (r.1.pt.x : Option Rat) = false := by
+  decide +kernel
+/-- `a = b` and `a = c` (same point, same flag): the output is finite although an intermediate quotient is `0/0` -/
+theorem tri2_coincident_ab_ac_finite :
+    (let t : Triangle2 NaNable := ⟨⟨some 0, some 0⟩, ⟨some 0, some 0⟩, ⟨some 2, some 0⟩⟩
+     let r := t.projectLoc ⟨some 1, some 1⟩ false
+     Option.isSome (r.1.pt.x : Option Rat) = true ∧ Option.isSome (r.1.pt.y : Option Rat) = true) ∧
+    (let t : Triangle2 NaNable := ⟨⟨some 0, some 0⟩, ⟨some 2, some 0⟩, ⟨some 0, some 0⟩⟩
+     let r := t.projectLoc ⟨some 1, some 1⟩ false
+     Option.isSome (r.1.pt.x : Option Rat) = true ∧ Option.isSome (r.1.pt.y : Option Rat) = true) := by
+  decide +kernel
+
 end C20
